@@ -156,6 +156,34 @@ def LazySt.get (l : LazySt) (idx : Int) : LazySt × Bool :=
     let l' := l.fill idx.toNat (idx.toNat + 2)
     (l', decide (idx.toNat < l'.pulled))
 
+/-! ### Which objects `dtml-in` takes as they are, which it wraps (`DT_Util.sequence_ensure_subscription`) -/
+
+/-- the kinds of objects a `dtml-in` is handed (the kinds the harness generates) -/
+inductive SeqKind where
+  | list | tuple | str | dict | set
+  | iterator            -- an object with `__iter__` and `__next__` (also `map`, `iter([...])`)
+  | generator
+  | getitemLen          -- an object with `__getitem__` and `__len__` (result-set style), no mapping methods
+  | getitemOnly         -- the old sequence protocol: `__getitem__` only
+  | iterOnly            -- an object with only `__iter__`
+  deriving Repr, DecidableEq
+
+/-- is the object used as it is (subscripted directly)?  Otherwise it is iterated through the lazy wrapper. -/
+def SeqKind.listLike : SeqKind → Bool
+  | .list | .tuple | .str | .getitemLen => true
+  | .dict | .set | .iterator | .generator | .getitemOnly | .iterOnly => false
+
+/-- what `dtml-in` works on -/
+inductive Ensured where
+  | asIs                      -- the object itself
+  | wrapped (l : LazySt)      -- a `SequenceFromIter` around `iter(obj)`, in this state
+  deriving Repr, DecidableEq
+
+/-- `sequence_ensure_subscription(obj)` for an object of kind `k` whose iteration yields `src` items
+(`none` = unbounded): a freshly wrapped iterator has pulled nothing -/
+def ensure (k : SeqKind) (src : Option Nat) : Ensured :=
+  if k.listLike then .asIs else .wrapped (LazySt.init src)
+
 /-! ### Access traces: which indexes `renderwb` asks the sequence for, in order.
 
 Success of `sequence[i]` depends only on `i` and the true length, never on what
